@@ -557,4 +557,115 @@ func run0(c *vf.Ctx) {
 		}
 	}
 	b.validate(c, "meshes-rest")
+	concurrentRelays(c, rng)
+}
+
+// concurrentRelays: a router runs one frame worker per CPU - the announcements that reach a relay at the same moment
+// are handled side by side. Meshes with a hub (stars, double stars, trees) are flooded with every batch of frames for
+// one router handled by as many real router workers at once; when the network has drained every router must hold a
+// route to every other one (judged by TLC: topo + quiet events of GossipMesh_Trace).
+func concurrentRelays(c *vf.Ctx, rng *rand.Rand) {
+	shapes := map[string]func(n int) [][]int{
+		"star": func(n int) [][]int {
+			var e [][]int
+			for i := 2; i <= n; i++ {
+				e = append(e, []int{1, i})
+			}
+			return e
+		},
+		"double-star": func(n int) [][]int {
+			e := [][]int{{1, 2}}
+			for i := 3; i <= n; i++ {
+				e = append(e, []int{1 + i%2, i})
+			}
+			return e
+		},
+		"tree": func(n int) [][]int {
+			var e [][]int
+			for i := 2; i <= n; i++ {
+				e = append(e, []int{i / 2, i})
+			}
+			return e
+		},
+	}
+	var events []any
+	var descs []map[string]any
+	var starts []int
+	rounds := c.Pick(30, 400)
+	names := []string{"star", "double-star", "tree"}
+	for k := 0; k < rounds; k++ {
+		name := names[k%3]
+		n := 6 + rng.Intn(5)
+		raw := shapes[name](n)
+		edges := toEdges(raw, rng, true)
+		ms, err := mesh.New(n, edges, mesh.Opts{})
+		if err != nil {
+			c.Fatal("concurrent mesh: %v", err)
+		}
+		for i := 1; i <= n; i++ {
+			ms.Announce(i, true)
+		}
+		guard := 0
+		for ms.W.NInflight() > 0 && guard < 5000 {
+			guard++
+			// all frames in flight for one receiver, handled at once
+			ms.W.Lock()
+			to := ms.W.Inflight[rng.Intn(len(ms.W.Inflight))].To
+			var batch []*world.Flight
+			var rest []*world.Flight
+			for _, fl := range ms.W.Inflight {
+				if fl.To == to {
+					batch = append(batch, fl)
+				} else {
+					rest = append(rest, fl)
+				}
+			}
+			ms.W.Inflight = rest
+			ms.W.Unlock()
+			ms.W.DeliverConcurrent(batch)
+			c.Eval(len(batch))
+		}
+		if len(ms.W.Panics) > 0 {
+			c.Violation(vf.Key("panic", "concurrent-"+name), fmt.Sprintf("a worker panicked while %d routers of a %s handled announcements concurrently: %v", n, name, ms.W.Panics[0]), map[string]any{"edges": raw}, nil)
+		}
+		tables := make([][]mesh.Route, n)
+		all := make([]int, n)
+		for i := 0; i < n; i++ {
+			tables[i] = ms.Table(i + 1)
+			if tables[i] == nil {
+				tables[i] = []mesh.Route{}
+			}
+			all[i] = i + 1
+		}
+		starts = append(starts, len(events))
+		descs = append(descs, map[string]any{"family": "concurrent-" + name, "n": n, "edges": raw})
+		events = append(events, ms.Topo(), map[string]any{"ev": "quiet", "tables": tables, "announced": all})
+		c.Distinct(fmt.Sprintf("concurrent|%s|%d|%d", name, n, k))
+	}
+	for len(events) > 0 {
+		rejectAt, inv, res, err := c.TraceCheck("GossipMesh_Trace", "GossipMesh_Trace.cfg", events, vf.TLCOpts{Timeout: 20 * time.Minute, Heap: "8g"})
+		if err != nil {
+			c.Fatal("T concurrent: %v", err)
+		}
+		c.AddModel(res.Distinct, res.Generated)
+		if rejectAt <= 0 && inv == "" {
+			break
+		}
+		ri := sort.Search(len(starts), func(i int) bool { return starts[i] > rejectAt-1 }) - 1
+		c.Violation(vf.Key("reach", descs[ri]["family"]), fmt.Sprintf("mesh %v, announcements handled by several router workers of one router at once: after the network drained some router has no route whose labels lead to another router that announced itself", descs[ri]), map[string]any{"mesh": descs[ri], "event": events[rejectAt-1]}, nil)
+		nx := len(events)
+		if ri+1 < len(starts) {
+			nx = starts[ri+1]
+		}
+		var ns []int
+		for _, st := range starts[ri+1:] {
+			ns = append(ns, st-nx)
+		}
+		events, starts, descs = events[nx:], ns, descs[ri+1:]
+		if c.NViolations() > 3 {
+			break
+		}
+	}
+	c.AddTraces(rounds)
+	c.Stage("T-concurrent-workers", map[string]any{"meshes": rounds})
 }
